@@ -86,6 +86,12 @@ def hist_slot(qm, alias, bs, ty):
     fn mk(v: V) -> Q {{ Q {{ dimension: PhantomData, units: PhantomData, value: v }} }}
     let p = |s: &str| -> V {{ {parse_expr(ty, 's')} }};
     let sh = |v: &V| -> String {{ {show_expr(ty, 'v.clone()')} }};
+    if a[0] == "misc0" {{
+        let e: Vec<V> = Vec::new();
+        let sq: Q = e.iter().cloned().map(mk).sum();
+        let sr: V = e.iter().cloned().sum();
+        return format!("{{}}|{{}}", sh(&sq.value), sh(&sr));
+    }}
     if a[0] == "misc" {{
         let vals: Vec<V> = a[1..].iter().map(|s| p(s)).collect();
         let sq: Q = vals.iter().cloned().map(mk).sum();
@@ -242,10 +248,19 @@ def run(ctx):
                             continue
                         acc += v
                         vals.append(VG.val_text(ty, v))
-                if vals:
+                sums = [vals] if vals else []
+                if is_float(ty):
+                    nz, pz = FC.hexbits(FC.special_values(ty)["-0"], ty), FC.hexbits(FC.special_values(ty)["+0"], ty)
+                    sums += [[nz], [nz, nz, nz], [pz], [nz, pz], [pz, nz], [FC.hexbits(FC.special_values(ty)["nan"], ty), nz]]
+                else:
+                    sums += [["0"] if STYPES[ty]["cls"] == "z" else ["0/1"]]
+                for vs in sums:
                     cid = f"h{len(cases)}"
-                    cases.append((cid, slot, ["misc"] + vals))
-                    meta[cid] = ("misc", ty, bs, qm, vals[0], [], slot)
+                    cases.append((cid, slot, ["misc"] + vs))
+                    meta[cid] = ("misc", ty, bs, qm, vs[0], [], slot)
+                cid = f"h{len(cases)}"
+                cases.append((cid, slot, ["misc0"]))
+                meta[cid] = ("misc", ty, bs, qm, "-", [], slot)
                 if is_float(ty):
                     for name, bits in FC.special_values(ty).items():
                         cid = f"h{len(cases)}"
